@@ -24,6 +24,22 @@ PARTIAL = [
     "blendPlacement/exportPlacement are file-local/private: their model is tied to the code only end to end, through the "
     "exposed integer placements (driver op `blend`, bound proved as export_blend_observable) — not by a direct differential "
     "test on floats",
+    "control logic of GlobalPlacer::run (initial solves, stop test, penalty-update back-off, inner solves, the three geometric "
+    "recurrences, final runUB, the exception of checkFinitePlacement): modelled by GlobalLoop.run as a function of the parameters "
+    "and of an oracle trace (per iteration the observed ub, lb, dist, whether each lower-bound solve passed checkFinitePlacement, "
+    "and the average cell length). loop_terminates, zero_wirelength_exits_first_step, recurrences_rounded hold for every trace "
+    "and every rounding; they do NOT say which traces the float code produces — whether a stop test ever fires is exactly what "
+    "KF-C06-1 is about. recurrences_closed_form and drift_box_sound are over exact arithmetic (Rounding.exact); for the float "
+    "recurrences the driver replays the IEEE roundings (Rounding.ieee: round-to-nearest-even to 24/53 bits with subnormals, a "
+    "hand-written definition that is itself not proved against IEEE-754) and every logged penalty_/penaltyCutoffDistance_/"
+    "approximationDistance_/nextPenaltyUpdateDistance/gap must be reproduced bit for bit; the distance between the float values "
+    "and the closed forms is checked per logged value against X_k((1+eps)^(k+1)-1), eps = 2^-24+2^-53+2^-77 (derived; not proved "
+    "in Lean). This replay needs hook H5 (fixes/hook-h5-global-loop-log.diff): on a tree without it only the callback order, the "
+    "returned/threw outcome and the iteration count are tied to the model (op gshape: the decisions are read off the callback "
+    "sequence, so the stop reason and the recurrences are NOT checked there), plus the classifier (op gdrift)",
+    "the KF-C06-1 classifier is GlobalLoop.driftOutOfBox (exact arithmetic on the parameters, in units of the average cell "
+    "length); the harness evaluates the same predicate with exact integers and the two verdicts are compared per case at k = 0, "
+    "at the updates of the run, at the step limit and around the first k where it turns true — not at every k",
     "the free rows handed to the grid are Circuit::computeRows (C15): bins_inside_area assumes they lie inside the rows' "
     "bounding box and are well formed; the grid correspondence replays computeRows through the shared Freespace model",
 ]
@@ -39,8 +55,9 @@ ASSUMPTIONS = [
     "400); no coupling between updateFactor and maxNbSteps",
     "the number of loop steps, the zero-wirelength flag and the step at which a failure happened are read from the UpperBound "
     "callbacks and from the library's progress log; they are used for the measured distribution and for the known-finding "
-    "classifiers (KF-C06-1: effective loop variables after k updates outside the numeric box of the statement — distances < 0.1, "
-    "approximation distance > 1e3, penalty/cutoff >= 2^64 or <= 2^-24 — and wirelength not identically zero; KF-C06-2: error raised by a solve "
+    "classifiers (KF-C06-1: effective loop variables after k updates, recomputed exactly from the parameters, outside the numeric "
+    "box of the statement — distances < 0.1, approximation distance > 1e3, penalty >= 2^128 (no longer a float), penalty/cutoff "
+    ">= 2^64 or <= 2^-24 — and wirelength not identically zero; KF-C06-2: error raised by a solve "
     "without penalty on a circuit with a net-connected group of movable cells without fixed pin), never to accept a run",
     "circuits: vc::genCircuit (without its nets) restricted to rows >= 4 row heights wide, 1-10 cells (1-30 for one case in eight; "
     "one in four in the thorough tier); nets drawn by the harness: 7/12 generic (1..2n+1 nets of degree 1-5), 1/12 each: no net, "
@@ -53,7 +70,13 @@ LEVEL_TEXT = ("Lean 4 theorems over an executable Rat model of spreadCells / spr
               "the rows' bounding box, returned placement = rounded blend, and the observable three-roundings bound); model tied to "
               "the C++ by a differential stream on spreadCoordX/Y, simpleCoordX/Y and DensityGrid::fromIspdCircuit; the end-to-end "
               "statement (every UpperBound callback, finiteness, no error, returned = blend of the last exposed LB and UB) is checked "
-              "by a direct oracle on Circuit::placeGlobal over generated circuits and parameters")
-LEVEL_NOTE = ("Partial w.r.t. single precision: proofs are over Rat. Trusted: Lean kernel, the hand-written model's tie to the code "
+              "by a direct oracle on Circuit::placeGlobal over generated circuits and parameters. The control logic of "
+              "GlobalPlacer::run is a second executable model (GlobalLoop.run: parameters + oracle trace of the float quantities -> "
+              "callback sequence, exit reason, loop variables) with theorems for every trace (termination within the step limit and "
+              "callback bounds, exit at the first iteration without wirelength, the recurrences and their closed forms, soundness of "
+              "the KF-C06-1 numeric box, legacy witness on the pre-fix stop test); tied to the code per end-to-end case by the "
+              "callback sequence (hook-free) and, with hook H5, by a bit-for-bit replay of the logged per-iteration floats")
+LEVEL_NOTE = ("Partial w.r.t. single precision: proofs are over Rat; the loop theorems are conditional on the oracle trace (they "
+              "do not bound the float solves). Trusted: Lean kernel, the hand-written model's tie to the code "
               "(differential, bounded by the generator), the float error bound derivation in harness/h_C06.cpp.")
 TECHNIQUE = "Lean 4 proof over a Rat model + model/implementation correspondence stream + end-to-end direct oracle"
